@@ -54,7 +54,10 @@ def config(draw, reuse=None):
                 alias_typedef=bool(aliases) or draw(st.booleans()), masktype_rows=draw(st.booleans()),
                 cols=draw(st.sampled_from(['standard', 'standard', 'alias-swapped', 'bits-swapped', 'both-swapped'])),
                 final_newline=draw(st.sampled_from([True, True, False])), indent=draw(st.sampled_from([0, 0, 1, 2])), nodesc=draw(st.sampled_from([0, 0, 1, 3])),
-                blank_lines=draw(st.sampled_from([0, 0, 2, 5])))
+                blank_lines=draw(st.sampled_from([0, 0, 2, 5])),
+                # round 9: typedefs written compactly (all members on one line / two per line), bit numbers padded with zeros or signed
+                typedef_style=draw(st.sampled_from(['lines', 'lines', 'one-line', 'two-per-line'])),
+                bitfmt=draw(st.sampled_from(['%2d', '%2d', '%d', '%02d', '%03d', '+%d'])))
 
 
 def mixcase(draw, s):
@@ -112,13 +115,34 @@ def render(cfg):
     if cfg.get('alias_typedef', True):
         adecl = ['    char flag[20]; # Flag (real) name', '    char alias[20]; # Alias']
         lines += ['typedef struct {'] + (adecl[::-1] if swap_alias else adecl) + ['    char description[100]; # text description', '} maskalias;', '']
+    style = cfg.get('typedef_style', 'lines')
+    if style != 'lines':
+        # the same typedefs with several members per line (comments cannot follow a member then)
+        out, block = [], None
+        for ln in lines:
+            if ln.startswith('typedef struct {'):
+                block = []
+            elif block is not None and ln.startswith('}'):
+                if style == 'one-line':
+                    out.append('typedef struct { ' + ' '.join(block) + ' ' + ln)
+                else:
+                    out.append('typedef struct {')
+                    out += ['    ' + ' '.join(block[i:i + 2]) for i in range(0, len(block), 2)]
+                    out.append(ln)
+                block = None
+            elif block is not None:
+                block.append(ln.split('#')[0].strip())
+            else:
+                out.append(ln)
+        lines = out
+    bf = cfg.get('bitfmt', '%2d')
     rows = []
     for g in cfg['groups']:
         for l, b in g['labels']:
             if swap_bits:
-                rows.append('maskbits %s %s %2d    "bit %d of %s; a #description"' % (l, g['name'], b, b, g['name']))
+                rows.append('maskbits %s %s %s    "bit %d of %s; a #description"' % (l, g['name'], bf % b, b, g['name']))
             else:
-                rows.append('maskbits %s %2d %s    "bit %d of %s; a #description"' % (g['name'], b, l, b, g['name']))
+                rows.append('maskbits %s %s %s    "bit %d of %s; a #description"' % (g['name'], bf % b, l, b, g['name']))
     rows = [rows[i] for i in cfg['order']]
     for i, g in enumerate(cfg['groups'] if cfg.get('masktype_rows', True) else []):
         rows.insert((7 * i) % (len(rows) + 1), 'masktype %s 64 "the %s group"' % (g['name'], g['name']))
@@ -250,6 +274,8 @@ def classify(case):
         cfg = item['cfg']
         if cfg['aliases']:
             out.append('aliases')
+        out.append('typedef:' + cfg.get('typedef_style', 'lines'))
+        out.append('bitfmt:' + cfg.get('bitfmt', '%2d'))
         for g in cfg['groups']:
             bs = [b for l, b in g['labels']]
             if 63 in bs:
